@@ -21,6 +21,7 @@ Inductive pkt :=
 | PPresenceStatus (req status : N) (channel : bytes) (who : list (N * bytes))
 | PMe
 | PLink (req status : N) (name channel : bytes)
+| PHistory (req status : N) (msgs : list (bytes * bytes))   (* answer to emitter/history/: (channel, payload) of each message *)
 | POther (topic : bytes) (status req : N)
 | PUnknown.
 
@@ -31,6 +32,7 @@ Inductive op :=
 | OPub (mid : N) (retain : bool) (topic payload : bytes)
 | OLink (mid : N) (name key channel : bytes) (subscribe : bool)
 | OPresence (mid : N) (key channel : bytes) (status : bool) (changes : N)   (* 0 absent, 1 true, 2 false *)
+| OHistory (mid : N) (channel : bytes)        (* emitter/history/ request; the channel text carries the key *)
 | OPing
 | OEnd (how : N)
 | OReopen (subid : N).             (* a new connection in this slot; its id exists from the accept on *)
@@ -206,6 +208,7 @@ Definition s_emitter : bytes := [101;109;105;116;116;101;114].
 Definition h_link : N := murmur [108;105;110;107].
 Definition h_presence : N := murmur [112;114;101;115;101;110;99;101].
 Definition h_me : N := murmur [109;101].
+Definition h_history : N := murmur [104;105;115;116;111;114;121].
 
 Definition is_alnum12 (s : bytes) : bool := ((len s =? 1) || (len s =? 2)) && forallb is_alnum s.
 
@@ -221,6 +224,7 @@ Definition presence_who (mqtt : bool) (b : broker) (ssid : list N) : list (N * b
 Inductive ereq :=
 | ELink (name key channel : bytes) (subscribe : bool)
 | EPresence (key channel : bytes) (status : bool) (changes : N)
+| EHistory (channel : bytes)
 | ENone.
 
 Definition on_emitter (e : env) (b : broker) (i : N) (c : conn) (ch : chan) (mid : N) (r : ereq) : broker :=
@@ -245,6 +249,23 @@ Definition on_emitter (e : env) (b : broker) (i : N) (c : conn) (ch : chan) (mid
                       end in
             emit b2 i (PLink mid 200 name (safe_string lc))
       | _ => emit b i (PLink mid 400 [] [])
+      end
+    else if q =? h_history then
+      (* history.OnRequest: the key travels inside the channel text; limit = the 'last' option or 1;
+         the store's answer for (contract :: query, window, no continuation, limit) *)
+      match r with
+      | EHistory channel =>
+        let hc := parse_channel channel in
+        if c_type hc =? ChannelInvalid then emit b i (PHistory mid 400 [])
+        else match auth e hc AllowLoad with
+             | None => emit b i (PHistory mid 401 [])
+             | Some k =>
+               let limit := match get_option s_last (c_opts hc) with Some v => Z.to_N v | None => 1 end in
+               let '(t0, t1) := chan_window hc in
+               let msgs := query (b_store b) (e_now e) (key_contract k :: c_query hc) t0 t1 [] limit in
+               emit b i (PHistory mid 200 (map (fun m => (m_chan m, m_payload m)) msgs))
+             end
+      | _ => emit b i (PHistory mid 400 [])
       end
     else if q =? h_presence then
       match r with
@@ -341,6 +362,7 @@ Definition ereq_of (o : op) : ereq :=
   match o with
   | OLink _ name key channel sub => ELink name key channel sub
   | OPresence _ key channel status changes => EPresence key channel status changes
+  | OHistory _ channel => EHistory channel
   | _ => ENone
   end.
 
@@ -375,6 +397,9 @@ Definition step (e : env) (b : broker) (i : N) (o : op) : broker :=
       emit b1 i (PPuback mid)
     | OPresence mid _ _ _ _, Some c =>
       let '(b1, err) := on_publish e b0 i c mid false [101;109;105;116;116;101;114;47;112;114;101;115;101;110;99;101;47] [] (ereq_of o) in
+      emit b1 i (PPuback mid)
+    | OHistory mid _, Some c =>
+      let '(b1, err) := on_publish e b0 i c mid false [101;109;105;116;116;101;114;47;104;105;115;116;111;114;121;47] [] (ereq_of o) in
       emit b1 i (PPuback mid)
     | OPing, Some c => emit b0 i PPingresp
     | OEnd _, Some c => close_conn e b0 i c
